@@ -126,8 +126,8 @@ def run(chk, prog):
     distribution.analyse(obs, prog)
     k = 0
     for o in obs.items:
-        if "C24" in o["props"]:
+        if "C24" in o["props"] or (o["instance"].startswith(("Distribution.", "ExactDensity.")) and o["rule"] in ("TRACE-SCORE", "WEIGHT-UPD", "WEIGHT-GEN", "SCORE-AGG", "ASSESS-AGREE", "WEIGHT-REGEN", "TRACE-ARGS", "REGEN-PRIOR")):
             k += 1
             chk.require(o["ok"], o["rule"], o["instance"], o["construct"], derived=o["derived"], expected=o["expected"], where=o["where"])
-    chk.floor("base-case obligations", k, 6)
+    chk.floor("base-case obligations", k, 30)
     chk.explanation = "sibling agreement of sampler/logpdf construction, routing of keyword/positional arguments, name registry against TFP class names, and the base-case score/weight obligations"
